@@ -40,6 +40,16 @@ def stk_side(sp):
     return sm.MetaWorld.stk_side(sp) if sp else None
 
 
+def safe_monitor(cfg, op, o):
+    """a monitor that cannot evaluate its predicate (an observation the conforming code never produces,
+    e.g. a claim that succeeded without a safe-price answer) reports that as a failure instead of crashing"""
+    try:
+        return monitor(cfg, op, o)
+    except Exception as e:  # noqa
+        import traceback
+        return [(f"monitor-cannot-evaluate:{op[0]}", f"{op}: {type(e).__name__}: {e} | " + traceback.format_exc().splitlines()[-3].strip())]
+
+
 def claims(o):
     """per farm-token nonce: what the outstanding dual-yield tokens record"""
     sf, lp_need, lp_left = {}, {}, {}
@@ -246,7 +256,7 @@ def explore(tier, seed, model_ok=True, focus=False):
             kk = nontrivial(cfg, op, o)
             if kk is not None:
                 ex.nontrivial.add(kk)
-            for key, what in monitor(cfg, op, o):
+            for key, what in safe_monitor(cfg, op, o):
                 ex.failures.append(dict(key=key, what=what, replay=dict(cfg=cfg, ops=[t[0] for t in trace[:idx + 1]], seed=sd,
                                                                           observed=strip(o))))
         terms.append(sm.coq_history(cfg, tr))
@@ -274,6 +284,6 @@ def replay(data):
     for op, o in trace:
         if o is None:
             continue
-        for key, what in monitor(rp["cfg"], op, o):
+        for key, what in safe_monitor(rp["cfg"], op, o):
             fails.append(dict(key=key, what=what))
     return fails
